@@ -5,6 +5,7 @@ import (
 	"encoding/json"
 	"fmt"
 	"math/rand"
+	"net/http"
 	"net/url"
 	"os"
 	"sort"
@@ -265,6 +266,16 @@ func checkC18(c *core.Check) {
 			for ri := range w.op.Responses {
 				if w.op.Responses[ri].R != nil && oi%2 == 0 {
 					w.op.Responses[ri].R.Headers = append(w.op.Responses[ri].R.Headers, aspec.Header{Name: "X-Shared", Ref: "SharedHeader"})
+				}
+				// a header whose name is the key of another header component than the one it refers to (wirePool)
+				if r := w.op.Responses[ri].R; r != nil && oi%2 == 1 {
+					dup := false
+					for _, h := range r.Headers {
+						dup = dup || http.CanonicalHeaderKey(h.Name) == "Location"
+					}
+					if !dup {
+						r.Headers = append(r.Headers, aspec.Header{Name: "Location", Ref: "LocationHint"})
+					}
 				}
 			}
 			a.Paths = append(a.Paths, aspec.PathItem{Template: w.tmpl, Ops: []aspec.Op{w.op}})
